@@ -777,6 +777,13 @@ namespace plan
           ++quarantined;
           kind = 0; // falls back to a plain disjunction
         }
+        if (kind == 4 && q_undecided_relations)
+          for (auto &x : subs)
+            if (x->k == B::REL && (x->rel == EQ || x->rel == NEQ))
+            { // !(.. | x == y | ..) asks for a disequality of numbers, which nobody decides (KF-P1)
+              x->rel = LEQ;
+              ++quarantined;
+            }
         if (kind == 5 && (q_disj_polarity || q_undecided_relations))
         { // b == (single relation or variable) stays outside both findings
           subs.resize(1);
